@@ -349,6 +349,9 @@ func (e *Exec) unop(x *ssa.UnOp, st *State, reach Term) (Val, Term) {
 		a := e.addrOfPtr(v)
 		out := c.load(st.cells, a)
 		out.Typ = x.Type()
+		if a.Kind == RGlobal && len(a.Path) == 0 {
+			out.Global = a.Key
+		}
 		return out, reach
 	case token.NOT:
 		return scalar(x.Type(), c.not(v.T())), reach
@@ -388,6 +391,8 @@ func (e *Exec) binop(op token.Token, a, b Val, rt types.Type, reach Term, pos to
 				eqs = append(eqs, e.ptrEq(b, a))
 			} else if isNilLit(b) && a.Addr != nil {
 				eqs = append(eqs, e.ptrEq(a, b))
+			} else if se, ok := e.strLitEq(a, b); ok {
+				eqs = append(eqs, se)
 			} else {
 				for i := range a.L {
 					x, y := a.L[i], b.L[i]
@@ -504,6 +509,40 @@ func (e *Exec) binop(op token.Token, a, b Val, rt types.Type, reach Term, pos to
 	}
 	e.fail("binop %s on %s", op, a.Typ)
 	return Val{}, reach
+}
+
+// strLitEq: equality of a string with a literal, written out over length and characters (strings
+// are an uninterpreted sort; this makes the equality with a literal exact in both directions)
+func (e *Exec) strLitEq(a, b Val) (Term, bool) {
+	c := e.c
+	if len(a.L) != 1 || len(b.L) != 1 || a.T().Sort.K != SStr || b.T().Sort.K != SStr {
+		return Term{}, false
+	}
+	lit := func(t Term) (string, bool) {
+		for s, lt := range c.strLits {
+			if lt.S == t.S {
+				return s, true
+			}
+		}
+		return "", false
+	}
+	x, y := a.T(), b.T()
+	s, ok := lit(y)
+	if !ok {
+		s, ok = lit(x)
+		x, y = y, x
+	}
+	if !ok || len(s) > 16 {
+		return Term{}, false
+	}
+	if _, both := lit(x); both {
+		return Term{}, false // two literals: distinctness is asserted separately
+	}
+	conj := []Term{c.eq(c.app(bvSort(64), "strlen", x), bvLitI(64, int64(len(s))))}
+	for i := 0; i < len(s); i++ {
+		conj = append(conj, c.eq(c.app(bvSort(8), "strat", x, bvLitI(64, int64(i))), bvLitI(8, int64(s[i]))))
+	}
+	return c.and(conj...), true
 }
 
 func (e *Exec) coerceNil(x, y Term) (Term, Term) {
@@ -682,7 +721,15 @@ func (e *Exec) convert(v Val, to types.Type) Val {
 		// string(rune) / string(bytes): a string determined by the operand
 		if x.Sort.K == SBV {
 			r := e.extend(x, 32, isSigned(from))
-			return scalar(to, c.app(sortStr, "str_of_rune", r))
+			sr := c.app(sortStr, "str_of_rune", r)
+			// UTF-8: an ASCII rune is one byte, everything else at least two (1..4 in all)
+			ln := c.app(bvSort(64), "strlen", sr)
+			ascii := c.app(sortBool, "bvult", r, bvLitI(32, 128))
+			first := c.app(bvSort(8), "strat", sr, bvLitI(64, 0))
+			low := c.def(bvSort(8), fmt.Sprintf("((_ extract 7 0) %s)", r.S))
+			c.assume(c.and(c.implies(ascii, c.and(c.eq(ln, bvLitI(64, 1)), c.eq(first, low))),
+				c.implies(c.not(ascii), c.and(c.app(sortBool, "bvuge", ln, bvLitI(64, 1)), c.app(sortBool, "bvule", ln, bvLitI(64, 4)), c.app(sortBool, "bvuge", first, bvLitI(8, 128))))), "string(rune)")
+			return scalar(to, sr)
 		}
 		return scalar(to, c.fresh(sortStr, "conv"))
 	case x.Sort.K == ts.K:
@@ -730,7 +777,7 @@ func (e *Exec) sliceOp(x *ssa.Slice, st *State, reach Term) (Val, Term) {
 		at := bt.Elem().Underlying().(*types.Array)
 		ref := c.fresh(sortRef, "arrslice")
 		out := Val{Typ: x.Type(), L: []Term{ref, bvLitI(64, 0), bvLitI(64, at.Len()), bvLitI(64, at.Len())}}
-		if x.Low == nil && x.High == nil && base.Addr != nil && base.Addr.Kind == RLocal {
+		if x.Low == nil && x.High == nil && base.Addr != nil && (base.Addr.Kind == RLocal || base.Addr.Kind == RHeap) && len(base.Addr.Path) == 0 {
 			out.Addr = base.Addr // contents tracked through the local array (varargs packs)
 		}
 		return out, reach
